@@ -142,7 +142,7 @@ def report_violations(prop, tier, viol, units, ex):
         run = [x for x in u['runs'] if x['id'] == rid][0]
         traced = None
         try:
-            traced = runner.run_one(u, run, ex[un], tier, want_trace=True)
+            traced = runner.run_one(u, run, ex[un], tier, want_trace=True, only_props=sorted(o['id'] for o in obls)[:6])
         except Exception as e:
             traced = None
         tmap = {}
